@@ -18,8 +18,12 @@ THEOREMS = [
     for t in [
         "argBest_optimal", "argBest_some_of_ne_nil", "no_blocking_compatible", "no_blocking_incompatible",
         "stage1_exhaustive", "refines_greedy_spec", "greedy_unique_of_no_ties", "pairs_independent_of_index_order",
+        "valid_is_code_table",
     ]
-]
+] + (
+    # decision table of MatchingLabelPolicy.is_matchable, regenerated from the source on every run (harness/dt_match.py)
+    ["PEval.KernelMatchable.matchable_table_check", "PEval.KernelMatchable.matchable_code_table_eq_model", "PEval.KernelMatchable.matchable_eq_skeleton", "PEval.KernelMatchable.matchable_valuation_consistent", "PEval.KernelMatchable.matchable_code_table_eq_isMatchable", "PEval.KernelMatchable.matchable_code_table_eq_isMatchable_AP", "PEval.KernelMatchable.table_fp_gt_compatible", "PEval.KernelMatchable.table_allow_any", "PEval.KernelMatchable.table_strict_iff"]
+)
 RULE = (
     "as C01, with clusters of estimates around one ground truth (70 %), exact duplicates and symmetric offsets (exact "
     "ties), unknown-labelled estimates and FP-labelled ground truth over-represented, numeric type variants of all "
